@@ -165,6 +165,12 @@ class PStr(View):
     def sym_method(self, I, name, args, kwargs):
         if name == 'reverse_complement' and not args:
             return self.revcomp()
+        if name in ('startswith', 'endswith') and isinstance(args[0], PStr):
+            o = args[0]
+            n, m = _z(self._len), _z(o._len)
+            off = z3.IntVal(0) if name == 'startswith' else n - m
+            k = z3.Int(I.e.fresh_name('k_affix'))
+            return z3.And(n >= m, z3.ForAll([k], z3.Implies(z3.And(0 <= k, k < m), self._get(off + k) == o._get(k))))
         if name == 'startswith' and isinstance(args[0], str):
             lit = args[0]
             n = self._len
